@@ -1226,6 +1226,13 @@ def cases(tier, seed):
         c = dict(extra[(seed + i) % len(extra)])
         c['extra'] = True
         yield c
+    # ---- two-digit vertex numbers: closed neighbourhoods whose members, written
+    # without a separator, read the same ([1,2,13] / [12,13], [1,2] / [12], [1,3] / [13])
+    for n, es in ((13, [[1, 2], [1, 13], [12, 13], [3, 4], [4, 5], [6, 7], [8, 9], [10, 11]]),
+                  (12, [[1, 2], [3, 4], [5, 6], [7, 8], [9, 10]]),
+                  (13, [[1, 3], [2, 4], [5, 6], [7, 8], [9, 10], [11, 12]]),
+                  (12, [[1, 2], [2, 12], [3, 4], [5, 6], [7, 8], [9, 10], [10, 11]])):
+        yield {'fam': 'tiling', 'n': n, 'E': es}
     # ---- a vertex of degree 16, 17, 18 (one parity over more literals than a
     # 16-bit mask holds); the leaves force every edge, so the instances are easy
     for leaves in (16, 17):
